@@ -51,13 +51,16 @@ CaseSpace == {[files |-> fs, o |-> MkOpts(x)] :
 \* record or a long-header record of another segment (the kinds in CpuSegs), long headers with the granularity the
 \* family has in that segment -- so the selected records share one granularity and the case is Definite whatever the
 \* order of the kinds: what a record means must not depend on the record standing before it.
+\* (The cfg files of this space leave GranSet empty: the granularity of a long header is the family's, not a free choice.
+\* FormCases takes a parameter only to keep TLC from evaluating it when it processes the definitions of OTHER cfg files.)
 FormFams == {cs[1] : cs \in CpuSegs}
-FormShapes(fam) == {sh \in Shapes : sh.k = "D" /\ sh.cs[1] = fam
-                                     /\ (ShortCS(sh.cs) \/ sh.gran = CFB!ImplicitGran(fam, sh.cs[2]))}
-FormCases == {[files |-> fs, o |-> MkOpts(x)] :
-                 fs \in UNION {FileSplits(MkItems(shs)) :
-                                 shs \in UNION {[1..n -> FormShapes(fam)] : n \in 0..MaxRecs, fam \in FormFams}},
-                 x \in OptSpace}
+FormShapes(fam) == {[k |-> "D", start |-> st, units |-> u, cs |-> cs,
+                     gran |-> IF ShortCS(cs) THEN 0 ELSE CFB!ImplicitGran(fam, cs[2])] :
+                       st \in Starts, u \in UnitLens, cs \in {x \in CpuSegs : x[1] = fam}}
+FormCases(fams) == {[files |-> fs, o |-> MkOpts(x)] :
+                       fs \in UNION {FileSplits(MkItems(shs)) :
+                                       shs \in UNION {[1..n -> FormShapes(fam)] : n \in 0..MaxRecs, fam \in fams}},
+                       x \in OptSpace}
 
 Blank == [file |-> <<>>, used |-> <<>>, warn |-> FALSE, entry |-> -1, stale |-> FALSE]
 NoOut == [rc |-> -2, bytes |-> <<>>, warn |-> FALSE]
@@ -95,7 +98,7 @@ StepClose ==
 
 Next == StepMeasure \/ StepOpen \/ StepProcess \/ StepClose
 Spec == Init /\ [][Next]_vars
-FormInit == /\ c \in FormCases
+FormInit == /\ c \in FormCases(FormFams)
             /\ pc = "measure" /\ idx = 1 /\ m = M0(c.o) /\ s = Blank /\ out = NoOut
 FormSpec == FormInit /\ [][Next]_vars
 
@@ -141,11 +144,11 @@ CS_One     == {<<81, 1>>}
 CS_Mixed   == {<<81, 1>>, <<97, 1>>, <<81, 2>>}
 \* header forms x families, kinds per family: short CODE, long CODE, long DATA (, long IO).  Families: one of each
 \* class of toolutils.c Granularity() (81 default 1, 112 two, 118 four) + ALL five whose value depends on the segment
-\* (59 AVR, 26..29 PDK13..16); CS_FormsAll: every id the table names + defaults incl. the ends 1, 127 of the id range
+\* (59 AVR, 26..29 PDK13..16); CS_FormsAll3: every id the table names + defaults incl. the ends 1, 127 of the id range
 FormKinds(fams, segs) == {<<f, 1, TRUE>> : f \in fams} \cup {<<f, sg>> : f \in fams, sg \in segs}
 CS_Forms    == FormKinds({81, 112, 118, 59, 26, 27, 28, 29}, {1, 2})
-CS_FormsSeg == FormKinds({59, 26, 27, 28, 29}, {1, 2})
-CS_FormsAll == FormKinds({9, 118, 125, 54, 112, 113, 114, 116, 117, 119, 18, 109, 59, 26, 27, 28, 29, 81, 1, 127}, {1, 2, 7})
+CS_FormsSeg == FormKinds({59, 26, 27, 28, 29}, {1, 2, 7})
+CS_FormsAll3 == FormKinds({9, 118, 125, 54, 112, 113, 114, 116, 117, 119, 18, 109, 59, 26, 27, 28, 29, 81, 1, 127}, {1, 2})
 R_Forms     == {<<-1, -1>>, <<0, 5>>}
 R_Forms3    == {<<-1, -1>>, <<0, 5>>, <<1, -1>>, <<2, 9>>}
 L_Forms     == {"ALL", "ODD", "WORD1"}
